@@ -44,7 +44,7 @@ class Dir:
         lines = []
         for k in range(rng.randrange(1, 6)):
             c = rng.choice(comps)
-            units = rng.choice([KG, "SI", "GPU"])
+            units = gen.tstr(rng, rng.choice([KG, "SI", "GPU"]))
             perm = pv.Permeance(value=gen.logu(rng, 1e-6, 1.0), units=KG).convert(units, c)
             ea = rng.choice([None, rng.uniform(-60000.0, 120000.0), 0.0])
             T = round(rng.uniform(273.0, 400.0), rng.choice([0, 2, 6]))
@@ -89,7 +89,7 @@ class Dir:
         import pandas
         for cid in range(rng.randrange(1, 4)):
             T = rng.uniform(290.0, 370.0)
-            basis = rng.choice(["weight", "molar"])
+            basis = gen.tstr(rng, rng.choice(["weight", "molar"]))
             comps = [pv.Composition(p=rng.uniform(0.02, 0.98), type=basis) for _ in range(rng.randrange(2, 6))]
             scale = gen.logu(rng, 1e-6, 1e2)
             perms = [(pv.Permeance(scale * rng.uniform(0.5, 2.0)), pv.Permeance(scale * rng.uniform(0.01, 1.0))) for _ in comps]
